@@ -57,14 +57,39 @@ Proof. unfold bytes_eqb. destruct (list_eq_dec N.eq_dec a a); congruence. Qed.
 Lemma headers_eqb_refl a : headers_eqb a a = true.
 Proof. unfold headers_eqb. destruct (list_eq_dec header_eq_dec a a); congruence. Qed.
 
+(* the server's own error replies are error_response's, and those announce the length of their body *)
+Lemma own_error_loop_expected e hs : own_error_loop hs = true ->
+  exists code, expected_loop e hs = error_response e code.
+Proof.
+  induction hs as [|h r IH]; cbn [own_error_loop expected_loop]; [intros _; now exists 404%N|].
+  destruct (prep_raises h || can_raises h); [intros _; now exists 500%N|].
+  destruct (can h); [|exact IH]. destruct (act h); [intros _; now exists 500%N|discriminate].
+Qed.
+
+Lemma cl_ok_error_response e code : cl_ok (error_response e code) = true.
+Proof.
+  unfold cl_ok, error_response, error_headers. destruct (error_texts e code) as [short long].
+  cbn [r_headers r_body]. unfold std_headers. cbn [app find_hdr fst snd].
+  change (bytes_eqb S_Server S_ContentLength) with false. change (bytes_eqb S_Date S_ContentLength) with false.
+  change (bytes_eqb S_Connection S_ContentLength) with false. cbv iota.
+  destruct (has_error_body code); cbn [andb find_hdr fst snd app]; [|reflexivity].
+  change (bytes_eqb S_ContentType S_ContentLength) with false. cbv iota.
+  assert (E : bytes_eqb S_ContentLength S_ContentLength = true) by apply bytes_eqb_refl. rewrite E.
+  destruct (negb (e_head e)); cbn [andb]; [now rewrite bytes_eqb_refl|now rewrite orb_true_r].
+Qed.
+
 (* the executable checker used on the implementation's observations accepts the model *)
 Theorem C03_holds : forall c, valid c -> holds c (run_model c) = [].
 Proof.
   intros [old e path hs] [Ho Hok]. cbn [old_end_headers cenv chandlers] in Ho, Hok. subst old.
-  unfold holds, run_model, spec. cbn [old_end_headers cenv cpath chandlers o_resp o_nstatus o_leftover].
+  unfold holds, run_model, spec, own_error. cbn [old_end_headers cenv cpath chandlers o_resp o_nstatus o_leftover].
   rewrite (emit_wellformed e path hs Hok).
   destruct (exactly_one e path hs) as [-> ->].
-  rewrite N.eqb_refl, headers_eqb_refl, bytes_eqb_refl. reflexivity.
+  rewrite N.eqb_refl, headers_eqb_refl, bytes_eqb_refl. cbn [app].
+  destruct (bad_path path || own_error_loop hs) eqn:Eo; [|reflexivity].
+  assert (H : exists code, expected e path hs = error_response e code).
+  { unfold expected. destruct (bad_path path); [now exists 400%N|]. cbn [orb] in Eo. now apply own_error_loop_expected. }
+  destruct H as [code ->]. now rewrite cl_ok_error_response.
 Qed.
 Print Assumptions C03_holds.
 
